@@ -52,4 +52,5 @@ for a in sys.argv[1:]:
     sid, _, cs = a.partition(":")
     run_one(sid, cs.split(",") if cs else [sid.split("-")[0]])
 # leave no binary built from a changed tree behind
-sh("cd /verif && python3 -c 'import sys; sys.path.insert(0,\"lib\"); import common; common.build_harness()' ")
+# ... nor any generated Coq table (Gen/*.v) produced under it
+sh("cd /verif && python3 tools/regen.py")
